@@ -95,6 +95,14 @@ def check(rep, tier, seed):
             jobs.append((["view", "-O", "npy"], txtb, "npy-header-boundary"))
             if big in (0, 4):
                 jobs.append((["fold", "-O", "npy"], txtb, "npy-header-boundary"))
+    # thousands of axes of length 1 (one entry): the npy 1.0 header length is a u16 - from about 21,800 axes on the dict no
+    # longer fits; and text / npy conversions of such spectra in general
+    for d in (5000, 21000, 21830, 21845, 21850, 22000, 30000):
+        txtm = text_spectrum([1] * d, ["5"])
+        jobs.append((["view", "-O", "npy"], txtm, "many-axes"))
+        jobs.append((["fold", "-O", "npy"], txtm, "many-axes"))
+        jobs.append((["view"], txtm, "many-axes"))
+        jobs.append((["stat", "-s", "sum"], txtm, "many-axes"))
     base = text_spectrum([3, 3], [str(i) for i in range(9)])
     for p in ("0", "17", "65535", "65536", "4294967296", "18446744073709551615"):
         jobs.append((["view", "--precision", p], base, "precision"))
@@ -104,7 +112,8 @@ def check(rep, tier, seed):
     # (d) inputs
     inputs = [b"", b"#", b"\x93", b"#SHAP", b"\x93NUMP", b"#SHAPE", b"\x93NUMPY", b"#SHAPE=", b"\n", b"\x00" * 7]
     for hdr in ("0", "4294967296/4294967296", "18446744073709551616", "", "-3", "a/b", "3/", "/3", "2//2", "1/1/1/1/1/1/1/1/1", "+2", "2 ", " 2",
-                "9223372036854775808/2", "4294967296/4294967296/4294967296", "0/0", "1/0"):
+                "9223372036854775808/2", "4294967296/4294967296/4294967296", "0/0", "1/0",
+                "0/18446744073709551615/2", "0/4294967296/4294967296", "2/0/9223372036854775808", "4294967296/0/4294967296/3", "0/18446744073709551615/18446744073709551615"):
         for vals in ("", "1", "1 2", "nan", "1e999 -1e999", "x", "1 2 3 4"):
             inputs.append(("#SHAPE=<%s>\n%s\n" % (hdr, vals)).encode())
     inputs += [b"#SHAPE=<2>\n1 2", b"#SHAPE=<2>", b"#SHAPE=<2>\n\n\n", b"#SHAPE=<2>\r\n1 2\r\n", b"#SHAPE=<2>\n1\t2\n", b"#SHAPE=<2>\n1 \xff\n", b"#SHAPE=<\xc2\xb2>\n1 2\n"]
